@@ -56,7 +56,7 @@ MIN_HITS = {
         'layout:transposed': 30, 'layout:field-view': 20, 'order:swapped': 50, 'shape:0d': 50, 'shape:empty': 50,
         'shape:rank>=4': 30, 'dtype:bfloat16': 20, 'dtype:float16': 20, 'dtype:complex64': 20, 'dtype:uint64': 20,
         'dtype:bool': 20, 'depth:0': 20, 'depth:4': 20, 'reject:raised-serialize': 50, 'reject:raised-deserialize': 20,
-        'sqlite:clients': 150, 'state:checkpoints': 40, 'hit:failed-save': 25, 'hit:sqlite-overlapping-reads': 50, 'hit:sqlite-bulk': 6, 'hit:huge-structure': 2, 'ckpt-dir:./relative': 2, 'ckpt-dir:inner /./': 2, 'ckpt-dir:doubled slash': 2,
+        'sqlite:clients': 150, 'state:checkpoints': 40, 'hit:failed-save': 25, 'hit:sqlite-overlapping-reads': 50, 'hit:sqlite-bulk': 6, 'hit:highly-compressible-client': 6, 'hit:huge-structure': 2, 'ckpt-dir:./relative': 2, 'ckpt-dir:inner /./': 2, 'ckpt-dir:doubled slash': 2,
     },
     'thorough': {
         'mon:roundtrip': 12000, 'mon:reject': 3000, 'mon:sqlite': 3000, 'mon:state': 1000, 'mon:readonly': 12000,
@@ -862,6 +862,14 @@ def run_sqlite_bulk(ctx, sfd, rng, scratch, case_no):
     ids = sorted({b'u%06d' % int(v) for v in rng.choice(10**6, size=n, replace=False)})
     rows = [int(v) for v in rng.randint(0, 3, size=len(ids))]
     data = {c: {'x': (np.arange(r, dtype=np.int32) + 3 * j), 'tag': np.array([c] * r, dtype=object)} for j, (c, r) in enumerate(zip(ids, rows))}
+    # three clients made of megabytes of constant data (blank images, all-padding token rows): their blobs compress at the
+    # limit of what DEFLATE can do (about 1000:1)
+    for c, mb, val in ((ids[1000 % len(ids)], 2, 0), (ids[1], 4, 1), (ids[len(ids) // 2], 8, 0)):
+      r_ = rows[ids.index(c)]
+      data[c] = {'x': np.full((r_,), val, np.int32), 'tag': np.array([c] * r_, dtype=object)}
+      if r_:
+        data[c] = {'x': np.full((r_, mb * (1 << 18) // max(r_, 1)), val, np.int32), 'tag': np.array([c] * r_, dtype=object)}
+    compressible = [c for c in (ids[1000 % len(ids)], ids[1], ids[len(ids) // 2]) if rows[ids.index(c)]]
     as_gen = bool(rng.rand() < 0.5)
     wit = {'family': 'sqlite-bulk', 'clients': len(ids), 'add_many_input': 'generator' if as_gen else 'list'}
 
@@ -884,7 +892,10 @@ def run_sqlite_bulk(ctx, sfd, rng, scratch, case_no):
       ctx.check(got_ids == ids, 'sqlite/client-ids', f'client_ids() returns {len(got_ids)} of {len(ids)} written ids; first missing at '
                 f'input positions {[ids.index(m) for m in missing[:5]]}', wit)
       ctx.check(got_sizes == list(zip(ids, rows)), 'sqlite/client-sizes', 'client_sizes() differs from the written row counts', wit)
-    for pos in sorted({0, len(ids) - 1} | {q for q in (999, 1000, 1001, 1023, 1024, 2000, 2001, 2002, 2048, 3002, 3003, 4096) if q < len(ids)}):
+    if compressible:
+      ctx.count('hit:highly-compressible-client', len(compressible))
+    for pos in sorted({0, len(ids) - 1} | {ids.index(c) for c in compressible} |
+                      {q for q in (999, 1000, 1001, 1023, 1024, 2000, 2001, 2002, 2048, 3002, 3003, 4096) if q < len(ids)}):
       c = ids[pos]
       r = ctx.call('SQLiteFederatedData', lambda c=c: fd.get_client(c).all_examples(), witness={**wit, 'client': c, 'input_position': pos})
       if r.ok:
